@@ -92,7 +92,6 @@ fn h_index(op: &str, a: &[&str]) -> Option<String> {
                 Ok(ix) => {
                     let exps: Vec<&str> = if *exp == "-" { vec![] } else { exp.split(',').collect() };
                     let mut bad = None;
-                    let mut zero = None;
                     let mut out = Vec::new();
                     for (i, id) in ids.iter().enumerate() {
                         set_fail_at(None);
@@ -102,14 +101,10 @@ fn h_index(op: &str, a: &[&str]) -> Option<String> {
                         let probes = (ops - if r.is_some() { 2 } else { 0 }) / 2;
                         let rs = r.map(|x| x.to_string()).unwrap_or("n".into());
                         if let Some(x) = exps.get(i) {
-                            if *x != "-" && *x != rs {
-                                if *id == 0 {
-                                    // key 0 is the unused-slot marker (known finding C17-1); reported
-                                    // only when no other key disagrees with the scan
-                                    zero = Some(format!("find-zero-id scan={x} find={rs}"));
-                                } else if bad.is_none() {
-                                    bad = Some(format!("find-differs id={id} scan={x} find={rs}"));
-                                }
+                            // (key 0 is the unused-slot marker: the scan never finds it, and since
+                            // the repair of C17-1 neither may `find`)
+                            if *x != "-" && *x != rs && bad.is_none() {
+                                bad = Some(format!("find-differs id={id} scan={x} find={rs}"));
                             }
                         }
                         if probes > ix.slot_count() as u64 && bad.is_none() {
@@ -117,7 +112,7 @@ fn h_index(op: &str, a: &[&str]) -> Option<String> {
                         }
                         out.push(format!("{rs}:{probes}"));
                     }
-                    with_oracle(format!("ok {}", join(",", &out)), bad.or(zero))
+                    with_oracle(format!("ok {}", join(",", &out)), bad)
                 }
                 Err(x) => format!("err {}", rerr(&x)),
             })
@@ -843,15 +838,7 @@ fn h_loader(op: &str, a: &[&str]) -> Option<String> {
                 let ex: Vec<&str> = exp.split(';').collect();
                 ex.len() == out.len() && ex.iter().zip(out.iter()).all(|(a, b)| dwp_item_match(a, b))
             };
-            let bad = if *exp != "-" && !matches {
-                // differences confined to the key 0 are the known finding C17-1
-                let ex: Vec<&str> = exp.split(';').collect();
-                let only_zero = ex.len() == out.len()
-                    && ids.split(',').zip(ex.iter().zip(out.iter())).all(|(t, (a, b))| dwp_item_match(a, b) || &t[1..] == "0");
-                Some(format!("{} standalone={exp}", if only_zero { "find-zero-id" } else { "dwp-unit-differs" }))
-            } else {
-                None
-            };
+            let bad = if *exp != "-" && !matches { Some(format!("dwp-unit-differs standalone={exp}")) } else { None };
             Some(with_oracle(format!("ok {s}"), bad))
         }
         ("attr", [e, f, asz, sob, ab, st, lst, so, ad, sup, kind, val, exp]) => {
